@@ -129,16 +129,21 @@ def parse_depfile(path: Path) -> list[str] | None:
     return [d for d in deps if d]
 
 
+def _norm(p: str) -> str:
+    """Path-independent spelling, so a build directory seeded from another checkout stays valid."""
+    return p.replace(str(BUILD_ROOT), "$BUILD").replace(str(REPO), "$REPO").replace(str(VERIF), "$VERIF")
+
+
 def closure_key(flags: list[str], src: str, deps: list[str]) -> str | None:
     h = hashlib.sha256()
-    h.update(("\0".join(flags)).encode())
-    for d in sorted(set(deps + [src])):
+    h.update(("\0".join(_norm(f) for f in flags)).encode())
+    for d in sorted(set(deps + [src]), key=_norm):
         if d.startswith("/usr/") or d.startswith("/opt/"):
             continue  # toolchain headers are fixed in this image
         fh = file_hash(d)
         if fh is None:
             return None
-        h.update(d.encode()); h.update(fh.encode())
+        h.update(_norm(d).encode()); h.update(fh.encode())
     return h.hexdigest()
 
 
